@@ -19,6 +19,8 @@ static std::map<std::string, SessionFactory> &kinds() { static std::map<std::str
 static std::map<std::string, PlanGenerator> &gens() { static std::map<std::string, PlanGenerator> m; return m; }
 static std::vector<YieldInvariant> &yinv() { static std::vector<YieldInvariant> v; return v; }
 void registerYieldInvariant(YieldInvariant f) { yinv().push_back(f); }
+static std::vector<EndInvariant> &einv() { static std::vector<EndInvariant> v; return v; }
+void registerEndInvariant(EndInvariant f) { einv().push_back(f); }
 void registerSessionKind(const char *kind, SessionFactory f) { kinds()[kind] = f; }
 void registerGenerator(const char *prop, PlanGenerator g) { gens()[prop] = g; }
 Json genPlan(const std::string &prop, uint64_t seed, const std::string &tier) {
@@ -176,6 +178,7 @@ void World::runAll() {
         cv.wait(lk, [&] { return current == -2; });
     }
     for (auto &t : th) t.join();
+    for (auto f : einv()) f(*this);      // cross-session checks over the recorded history (e.g. frame twins)
 }
 
 Json World::result() const {
